@@ -1,5 +1,5 @@
 // auto-generated: "lalrpop 0.23.1"
-// sha3: 013eae0ad7a84185092b605b6a81e7acd990ce6f3eee5dde12dc25dcb41518ed
+// sha3: 4ba1fb29ee348c1b2c8a0a5c83fb8cea5c2edc098cce5cd797cf799ec90f025e
 use crate::rt::*;
 #[allow(unused_extern_crates)]
 extern crate lalrpop_util as __lalrpop_util;
@@ -84,15 +84,13 @@ mod __parse__S {
         match __lookahead {
             Some((__loc1, __tok @ Tok('a', _, _, _), __loc2)) => {
                 let __sym0 = (__loc1, (__tok), __loc2);
-                __result = __state4(__tokens, __sym0, core::marker::PhantomData::<()>)?;
+                __result = __state5(__tokens, __sym0, core::marker::PhantomData::<()>)?;
             }
-            Some((_, Tok('b', _, _, _), _)) |
-            Some((_, Tok('c', _, _, _), _)) |
-            Some((_, Tok('d', _, _, _), _)) => {
+            Some((_, Tok('b', _, _, _), _)) => {
                 let __start: i64 = __lookahead.as_ref().map(|o| o.0.clone()).unwrap_or_default();
                 let __end = __start.clone();
-                let __nt = super::__action17::<>(&__start, &__end);
-                let __nt = __Nonterminal::A((
+                let __nt = super::__action16::<>(&__start, &__end);
+                let __nt = __Nonterminal::C((
                     __start,
                     __nt,
                     __end,
@@ -102,10 +100,8 @@ mod __parse__S {
             _ => {
                 #[allow(clippy::needless_raw_string_hashes)]
                 let __expected = alloc::vec![
-                    r###""a""###.to_string(),
-                    r###""b""###.to_string(),
-                    r###""c""###.to_string(),
-                    r###""d""###.to_string(),
+                    r###""x""###.to_string(),
+                    r###""z""###.to_string(),
                 ];
                 return Err(
                     match __lookahead {
@@ -133,8 +129,14 @@ mod __parse__S {
                 __Nonterminal::A(__sym0) => {
                     __result = __state1(__tokens, __lookahead, __sym0, core::marker::PhantomData::<()>)?;
                 }
-                __Nonterminal::S(__sym0) => {
+                __Nonterminal::B(__sym0) => {
+                    __result = __state2(__tokens, __lookahead, __sym0, core::marker::PhantomData::<()>)?;
+                }
+                __Nonterminal::C(__sym0) => {
                     __result = __state3(__tokens, __lookahead, __sym0, core::marker::PhantomData::<()>)?;
+                }
+                __Nonterminal::S(__sym0) => {
+                    __result = __state4(__tokens, __lookahead, __sym0, core::marker::PhantomData::<()>)?;
                 }
                 _ => {
                     return Ok((__lookahead, __nt));
@@ -156,26 +158,13 @@ mod __parse__S {
         match __lookahead {
             Some((__loc1, __tok @ Tok('b', _, _, _), __loc2)) => {
                 let __sym1 = (__loc1, (__tok), __loc2);
-                __result = __state5(__tokens, __sym1, core::marker::PhantomData::<()>)?;
-            }
-            Some((_, Tok('c', _, _, _), _)) |
-            Some((_, Tok('d', _, _, _), _)) => {
-                let __start = __lookahead.as_ref().map(|o| o.0.clone()).unwrap_or_else(|| __sym0.2.clone());
-                let __end = __start.clone();
-                let __nt = super::__action19::<>(&__start, &__end);
-                let __nt = __Nonterminal::B((
-                    __start,
-                    __nt,
-                    __end,
-                ));
-                __result = (__lookahead, __nt);
+                __result = __state6(__tokens, __sym0, __sym1, core::marker::PhantomData::<()>)?;
+                return Ok(__result);
             }
             _ => {
                 #[allow(clippy::needless_raw_string_hashes)]
                 let __expected = alloc::vec![
-                    r###""b""###.to_string(),
-                    r###""c""###.to_string(),
-                    r###""d""###.to_string(),
+                    r###""z""###.to_string(),
                 ];
                 return Err(
                     match __lookahead {
@@ -196,19 +185,6 @@ mod __parse__S {
                 )
             }
         }
-        #[allow(clippy::never_loop)]
-        loop {
-            let (__lookahead, __nt) = __result;
-            match __nt {
-                __Nonterminal::B(__sym1) => {
-                    __result = __state2(__tokens, __lookahead, __sym0, __sym1, core::marker::PhantomData::<()>)?;
-                    return Ok(__result);
-                }
-                _ => {
-                    return Ok((__lookahead, __nt));
-                }
-            }
-        }
     }
 
     fn __state2<
@@ -217,32 +193,27 @@ mod __parse__S {
         __tokens: &mut __TOKENS,
         __lookahead: Option<(i64, Tok, i64)>,
         __sym0: (i64, Tree, i64),
-        __sym1: (i64, Tree, i64),
         _: core::marker::PhantomData<()>,
     ) -> Result<(Option<(i64, Tok, i64)>, __Nonterminal<>), __lalrpop_util::ParseError<i64, Tok, u64>>
     {
         let mut __result: (Option<(i64, Tok, i64)>, __Nonterminal<>);
         match __lookahead {
-            Some((__loc1, __tok @ Tok('c', _, _, _), __loc2)) => {
-                let __sym2 = (__loc1, (__tok), __loc2);
-                __result = __state7(__tokens, __sym2, core::marker::PhantomData::<()>)?;
-            }
-            Some((_, Tok('d', _, _, _), _)) => {
-                let __start = __lookahead.as_ref().map(|o| o.0.clone()).unwrap_or_else(|| __sym1.2.clone());
-                let __end = __start.clone();
-                let __nt = super::__action21::<>(&__start, &__end);
-                let __nt = __Nonterminal::C((
+            Some((_, Tok('b', _, _, _), _)) => {
+                let __start = __sym0.0.clone();
+                let __end = __sym0.2.clone();
+                let __nt = super::__action13::<>(__sym0);
+                let __nt = __Nonterminal::A((
                     __start,
                     __nt,
                     __end,
                 ));
                 __result = (__lookahead, __nt);
+                return Ok(__result);
             }
             _ => {
                 #[allow(clippy::needless_raw_string_hashes)]
                 let __expected = alloc::vec![
-                    r###""c""###.to_string(),
-                    r###""d""###.to_string(),
+                    r###""z""###.to_string(),
                 ];
                 return Err(
                     match __lookahead {
@@ -253,7 +224,7 @@ mod __parse__S {
                             }
                         }
                         None => {
-                            let __location = __sym1.2.clone();
+                            let __location = __sym0.2.clone();
                             __lalrpop_util::ParseError::UnrecognizedEof {
                                 location: __location,
                                 expected: __expected,
@@ -263,22 +234,58 @@ mod __parse__S {
                 )
             }
         }
-        #[allow(clippy::never_loop)]
-        loop {
-            let (__lookahead, __nt) = __result;
-            match __nt {
-                __Nonterminal::C(__sym2) => {
-                    __result = __state6(__tokens, __lookahead, __sym0, __sym1, __sym2, core::marker::PhantomData::<()>)?;
-                    return Ok(__result);
-                }
-                _ => {
-                    return Ok((__lookahead, __nt));
-                }
+    }
+
+    fn __state3<
+        __TOKENS: Iterator<Item=Result<(i64, Tok, i64),__lalrpop_util::ParseError<i64, Tok, u64>>>,
+    >(
+        __tokens: &mut __TOKENS,
+        __lookahead: Option<(i64, Tok, i64)>,
+        __sym0: (i64, Tree, i64),
+        _: core::marker::PhantomData<()>,
+    ) -> Result<(Option<(i64, Tok, i64)>, __Nonterminal<>), __lalrpop_util::ParseError<i64, Tok, u64>>
+    {
+        let mut __result: (Option<(i64, Tok, i64)>, __Nonterminal<>);
+        match __lookahead {
+            Some((_, Tok('b', _, _, _), _)) => {
+                let __start = __sym0.0.clone();
+                let __end = __sym0.2.clone();
+                let __nt = super::__action14::<>(__sym0);
+                let __nt = __Nonterminal::B((
+                    __start,
+                    __nt,
+                    __end,
+                ));
+                __result = (__lookahead, __nt);
+                return Ok(__result);
+            }
+            _ => {
+                #[allow(clippy::needless_raw_string_hashes)]
+                let __expected = alloc::vec![
+                    r###""z""###.to_string(),
+                ];
+                return Err(
+                    match __lookahead {
+                        Some(__token) => {
+                            __lalrpop_util::ParseError::UnrecognizedToken {
+                                token: __token,
+                                expected: __expected,
+                            }
+                        }
+                        None => {
+                            let __location = __sym0.2.clone();
+                            __lalrpop_util::ParseError::UnrecognizedEof {
+                                location: __location,
+                                expected: __expected,
+                            }
+                        }
+                    }
+                )
             }
         }
     }
 
-    fn __state3<
+    fn __state4<
         __TOKENS: Iterator<Item=Result<(i64, Tok, i64),__lalrpop_util::ParseError<i64, Tok, u64>>>,
     >(
         __tokens: &mut __TOKENS,
@@ -326,63 +333,6 @@ mod __parse__S {
         }
     }
 
-    fn __state4<
-        __TOKENS: Iterator<Item=Result<(i64, Tok, i64),__lalrpop_util::ParseError<i64, Tok, u64>>>,
-    >(
-        __tokens: &mut __TOKENS,
-        __sym0: (i64, Tok, i64),
-        _: core::marker::PhantomData<()>,
-    ) -> Result<(Option<(i64, Tok, i64)>, __Nonterminal<>), __lalrpop_util::ParseError<i64, Tok, u64>>
-    {
-        let mut __result: (Option<(i64, Tok, i64)>, __Nonterminal<>);
-        let __lookahead = match __tokens.next() {
-            Some(Ok(v)) => Some(v),
-            Some(Err(e)) => return Err(e),
-            None => None,
-        };
-        match __lookahead {
-            Some((_, Tok('b', _, _, _), _)) |
-            Some((_, Tok('c', _, _, _), _)) |
-            Some((_, Tok('d', _, _, _), _)) => {
-                let __start = __sym0.0.clone();
-                let __end = __sym0.2.clone();
-                let __nt = super::__action18::<>(__sym0);
-                let __nt = __Nonterminal::A((
-                    __start,
-                    __nt,
-                    __end,
-                ));
-                __result = (__lookahead, __nt);
-                return Ok(__result);
-            }
-            _ => {
-                #[allow(clippy::needless_raw_string_hashes)]
-                let __expected = alloc::vec![
-                    r###""b""###.to_string(),
-                    r###""c""###.to_string(),
-                    r###""d""###.to_string(),
-                ];
-                return Err(
-                    match __lookahead {
-                        Some(__token) => {
-                            __lalrpop_util::ParseError::UnrecognizedToken {
-                                token: __token,
-                                expected: __expected,
-                            }
-                        }
-                        None => {
-                            let __location = __sym0.2.clone();
-                            __lalrpop_util::ParseError::UnrecognizedEof {
-                                location: __location,
-                                expected: __expected,
-                            }
-                        }
-                    }
-                )
-            }
-        }
-    }
-
     fn __state5<
         __TOKENS: Iterator<Item=Result<(i64, Tok, i64),__lalrpop_util::ParseError<i64, Tok, u64>>>,
     >(
@@ -398,12 +348,11 @@ mod __parse__S {
             None => None,
         };
         match __lookahead {
-            Some((_, Tok('c', _, _, _), _)) |
-            Some((_, Tok('d', _, _, _), _)) => {
+            Some((_, Tok('b', _, _, _), _)) => {
                 let __start = __sym0.0.clone();
                 let __end = __sym0.2.clone();
-                let __nt = super::__action20::<>(__sym0);
-                let __nt = __Nonterminal::B((
+                let __nt = super::__action15::<>(__sym0);
+                let __nt = __Nonterminal::C((
                     __start,
                     __nt,
                     __end,
@@ -414,8 +363,7 @@ mod __parse__S {
             _ => {
                 #[allow(clippy::needless_raw_string_hashes)]
                 let __expected = alloc::vec![
-                    r###""c""###.to_string(),
-                    r###""d""###.to_string(),
+                    r###""z""###.to_string(),
                 ];
                 return Err(
                     match __lookahead {
@@ -442,107 +390,8 @@ mod __parse__S {
         __TOKENS: Iterator<Item=Result<(i64, Tok, i64),__lalrpop_util::ParseError<i64, Tok, u64>>>,
     >(
         __tokens: &mut __TOKENS,
-        __lookahead: Option<(i64, Tok, i64)>,
         __sym0: (i64, Tree, i64),
-        __sym1: (i64, Tree, i64),
-        __sym2: (i64, Tree, i64),
-        _: core::marker::PhantomData<()>,
-    ) -> Result<(Option<(i64, Tok, i64)>, __Nonterminal<>), __lalrpop_util::ParseError<i64, Tok, u64>>
-    {
-        let mut __result: (Option<(i64, Tok, i64)>, __Nonterminal<>);
-        match __lookahead {
-            Some((__loc1, __tok @ Tok('d', _, _, _), __loc2)) => {
-                let __sym3 = (__loc1, (__tok), __loc2);
-                __result = __state8(__tokens, __sym0, __sym1, __sym2, __sym3, core::marker::PhantomData::<()>)?;
-                return Ok(__result);
-            }
-            _ => {
-                #[allow(clippy::needless_raw_string_hashes)]
-                let __expected = alloc::vec![
-                    r###""d""###.to_string(),
-                ];
-                return Err(
-                    match __lookahead {
-                        Some(__token) => {
-                            __lalrpop_util::ParseError::UnrecognizedToken {
-                                token: __token,
-                                expected: __expected,
-                            }
-                        }
-                        None => {
-                            let __location = __sym2.2.clone();
-                            __lalrpop_util::ParseError::UnrecognizedEof {
-                                location: __location,
-                                expected: __expected,
-                            }
-                        }
-                    }
-                )
-            }
-        }
-    }
-
-    fn __state7<
-        __TOKENS: Iterator<Item=Result<(i64, Tok, i64),__lalrpop_util::ParseError<i64, Tok, u64>>>,
-    >(
-        __tokens: &mut __TOKENS,
-        __sym0: (i64, Tok, i64),
-        _: core::marker::PhantomData<()>,
-    ) -> Result<(Option<(i64, Tok, i64)>, __Nonterminal<>), __lalrpop_util::ParseError<i64, Tok, u64>>
-    {
-        let mut __result: (Option<(i64, Tok, i64)>, __Nonterminal<>);
-        let __lookahead = match __tokens.next() {
-            Some(Ok(v)) => Some(v),
-            Some(Err(e)) => return Err(e),
-            None => None,
-        };
-        match __lookahead {
-            Some((_, Tok('d', _, _, _), _)) => {
-                let __start = __sym0.0.clone();
-                let __end = __sym0.2.clone();
-                let __nt = super::__action22::<>(__sym0);
-                let __nt = __Nonterminal::C((
-                    __start,
-                    __nt,
-                    __end,
-                ));
-                __result = (__lookahead, __nt);
-                return Ok(__result);
-            }
-            _ => {
-                #[allow(clippy::needless_raw_string_hashes)]
-                let __expected = alloc::vec![
-                    r###""d""###.to_string(),
-                ];
-                return Err(
-                    match __lookahead {
-                        Some(__token) => {
-                            __lalrpop_util::ParseError::UnrecognizedToken {
-                                token: __token,
-                                expected: __expected,
-                            }
-                        }
-                        None => {
-                            let __location = __sym0.2.clone();
-                            __lalrpop_util::ParseError::UnrecognizedEof {
-                                location: __location,
-                                expected: __expected,
-                            }
-                        }
-                    }
-                )
-            }
-        }
-    }
-
-    fn __state8<
-        __TOKENS: Iterator<Item=Result<(i64, Tok, i64),__lalrpop_util::ParseError<i64, Tok, u64>>>,
-    >(
-        __tokens: &mut __TOKENS,
-        __sym0: (i64, Tree, i64),
-        __sym1: (i64, Tree, i64),
-        __sym2: (i64, Tree, i64),
-        __sym3: (i64, Tok, i64),
+        __sym1: (i64, Tok, i64),
         _: core::marker::PhantomData<()>,
     ) -> Result<(Option<(i64, Tok, i64)>, __Nonterminal<>), __lalrpop_util::ParseError<i64, Tok, u64>>
     {
@@ -555,8 +404,8 @@ mod __parse__S {
         match __lookahead {
             None => {
                 let __start = __sym0.0.clone();
-                let __end = __sym3.2.clone();
-                let __nt = super::__action23::<>(__sym0, __sym1, __sym2, __sym3);
+                let __end = __sym1.2.clone();
+                let __nt = super::__action17::<>(__sym0, __sym1);
                 let __nt = __Nonterminal::S((
                     __start,
                     __nt,
@@ -578,7 +427,7 @@ mod __parse__S {
                             }
                         }
                         None => {
-                            let __location = __sym3.2.clone();
+                            let __location = __sym1.2.clone();
                             __lalrpop_util::ParseError::UnrecognizedEof {
                                 location: __location,
                                 expected: __expected,
@@ -606,82 +455,61 @@ fn __action0<
 fn __action1<
 >(
     (_, l, _): (i64, i64, i64),
+    (_, pR0, _): (i64, i64, i64),
     (_, c0, _): (i64, Tree, i64),
-    (_, c1, _): (i64, Tree, i64),
-    (_, c2, _): (i64, Tree, i64),
-    (_, c3, _): (i64, Tok, i64),
+    (_, c1, _): (i64, Tok, i64),
     (_, r, _): (i64, i64, i64),
 ) -> Tree
 {
-    node("S#0", l, r, vec![Tree::from(c0), Tree::from(c1), Tree::from(c2), Tree::from(c3)])
+    { probe("S#0", 0, 'R', pR0); node("S#0", l, r, vec![Tree::from(c0), Tree::from(c1)]) }
 }
 
 #[allow(clippy::too_many_arguments, clippy::needless_lifetimes, clippy::just_underscores_and_digits, clippy::extra_unused_type_parameters)]
 fn __action2<
 >(
     (_, l, _): (i64, i64, i64),
+    (_, c0, _): (i64, Tree, i64),
     (_, r, _): (i64, i64, i64),
 ) -> Tree
 {
-    node("A#0", l, r, vec![])
+    node("A#0", l, r, vec![Tree::from(c0)])
 }
 
 #[allow(clippy::too_many_arguments, clippy::needless_lifetimes, clippy::just_underscores_and_digits, clippy::extra_unused_type_parameters)]
 fn __action3<
 >(
     (_, l, _): (i64, i64, i64),
-    (_, c0, _): (i64, Tok, i64),
+    (_, c0, _): (i64, Tree, i64),
+    (_, pR1, _): (i64, i64, i64),
     (_, r, _): (i64, i64, i64),
 ) -> Tree
 {
-    node("A#1", l, r, vec![Tree::from(c0)])
+    { probe("B#0", 1, 'R', pR1); node("B#0", l, r, vec![Tree::from(c0)]) }
 }
 
 #[allow(clippy::too_many_arguments, clippy::needless_lifetimes, clippy::just_underscores_and_digits, clippy::extra_unused_type_parameters)]
 fn __action4<
 >(
     (_, l, _): (i64, i64, i64),
+    (_, c0, _): (i64, Tok, i64),
     (_, r, _): (i64, i64, i64),
 ) -> Tree
 {
-    node("B#0", l, r, vec![])
+    node("C#0", l, r, vec![Tree::from(c0)])
 }
 
 #[allow(clippy::too_many_arguments, clippy::needless_lifetimes, clippy::just_underscores_and_digits, clippy::extra_unused_type_parameters)]
 fn __action5<
 >(
     (_, l, _): (i64, i64, i64),
-    (_, c0, _): (i64, Tok, i64),
-    (_, pL1, _): (i64, i64, i64),
     (_, r, _): (i64, i64, i64),
 ) -> Tree
 {
-    { probe("B#1", 1, 'L', pL1); node("B#1", l, r, vec![Tree::from(c0)]) }
-}
-
-#[allow(clippy::too_many_arguments, clippy::needless_lifetimes, clippy::just_underscores_and_digits, clippy::extra_unused_type_parameters)]
-fn __action6<
->(
-    (_, l, _): (i64, i64, i64),
-    (_, r, _): (i64, i64, i64),
-) -> Tree
-{
-    node("C#0", l, r, vec![])
-}
-
-#[allow(clippy::too_many_arguments, clippy::needless_lifetimes, clippy::just_underscores_and_digits, clippy::extra_unused_type_parameters)]
-fn __action7<
->(
-    (_, l, _): (i64, i64, i64),
-    (_, c0, _): (i64, Tok, i64),
-    (_, r, _): (i64, i64, i64),
-) -> Tree
-{
-    node("C#1", l, r, vec![Tree::from(c0)])
+    node("C#1", l, r, vec![])
 }
 
 #[allow(clippy::needless_lifetimes, clippy::clone_on_copy)]
-fn __action8<
+fn __action6<
 >(
     __lookbehind: &i64,
     __lookahead: &i64,
@@ -691,7 +519,7 @@ fn __action8<
 }
 
 #[allow(clippy::needless_lifetimes, clippy::clone_on_copy)]
-fn __action9<
+fn __action7<
 >(
     __lookbehind: &i64,
     __lookahead: &i64,
@@ -702,14 +530,15 @@ fn __action9<
 
 #[allow(clippy::too_many_arguments, clippy::needless_lifetimes,
     clippy::just_underscores_and_digits, clippy::clone_on_copy, clippy::unit_arg)]
-fn __action10<
+fn __action8<
 >(
-    __0: (i64, i64, i64),
+    __0: (i64, Tree, i64),
+    __1: (i64, i64, i64),
 ) -> Tree
 {
     let __start0 = __0.0.clone();
     let __end0 = __0.0.clone();
-    let __temp0 = __action9(
+    let __temp0 = __action7(
         &__start0,
         &__end0,
     );
@@ -717,20 +546,22 @@ fn __action10<
     __action2(
         __temp0,
         __0,
+        __1,
     )
 }
 
 #[allow(clippy::too_many_arguments, clippy::needless_lifetimes,
     clippy::just_underscores_and_digits, clippy::clone_on_copy, clippy::unit_arg)]
-fn __action11<
+fn __action9<
 >(
-    __0: (i64, Tok, i64),
+    __0: (i64, Tree, i64),
     __1: (i64, i64, i64),
+    __2: (i64, i64, i64),
 ) -> Tree
 {
     let __start0 = __0.0.clone();
     let __end0 = __0.0.clone();
-    let __temp0 = __action9(
+    let __temp0 = __action7(
         &__start0,
         &__end0,
     );
@@ -739,6 +570,49 @@ fn __action11<
         __temp0,
         __0,
         __1,
+        __2,
+    )
+}
+
+#[allow(clippy::too_many_arguments, clippy::needless_lifetimes,
+    clippy::just_underscores_and_digits, clippy::clone_on_copy, clippy::unit_arg)]
+fn __action10<
+>(
+    __0: (i64, Tok, i64),
+    __1: (i64, i64, i64),
+) -> Tree
+{
+    let __start0 = __0.0.clone();
+    let __end0 = __0.0.clone();
+    let __temp0 = __action7(
+        &__start0,
+        &__end0,
+    );
+    let __temp0 = (__start0, __temp0, __end0);
+    __action4(
+        __temp0,
+        __0,
+        __1,
+    )
+}
+
+#[allow(clippy::too_many_arguments, clippy::needless_lifetimes,
+    clippy::just_underscores_and_digits, clippy::clone_on_copy, clippy::unit_arg)]
+fn __action11<
+>(
+    __0: (i64, i64, i64),
+) -> Tree
+{
+    let __start0 = __0.0.clone();
+    let __end0 = __0.0.clone();
+    let __temp0 = __action7(
+        &__start0,
+        &__end0,
+    );
+    let __temp0 = (__start0, __temp0, __end0);
+    __action5(
+        __temp0,
+        __0,
     )
 }
 
@@ -747,107 +621,14 @@ fn __action11<
 fn __action12<
 >(
     __0: (i64, i64, i64),
-) -> Tree
-{
-    let __start0 = __0.0.clone();
-    let __end0 = __0.0.clone();
-    let __temp0 = __action9(
-        &__start0,
-        &__end0,
-    );
-    let __temp0 = (__start0, __temp0, __end0);
-    __action4(
-        __temp0,
-        __0,
-    )
-}
-
-#[allow(clippy::too_many_arguments, clippy::needless_lifetimes,
-    clippy::just_underscores_and_digits, clippy::clone_on_copy, clippy::unit_arg)]
-fn __action13<
->(
-    __0: (i64, Tok, i64),
-    __1: (i64, i64, i64),
-) -> Tree
-{
-    let __start0 = __0.0.clone();
-    let __end0 = __0.0.clone();
-    let __start1 = __0.2.clone();
-    let __end1 = __1.0.clone();
-    let __temp0 = __action9(
-        &__start0,
-        &__end0,
-    );
-    let __temp0 = (__start0, __temp0, __end0);
-    let __temp1 = __action9(
-        &__start1,
-        &__end1,
-    );
-    let __temp1 = (__start1, __temp1, __end1);
-    __action5(
-        __temp0,
-        __0,
-        __temp1,
-        __1,
-    )
-}
-
-#[allow(clippy::too_many_arguments, clippy::needless_lifetimes,
-    clippy::just_underscores_and_digits, clippy::clone_on_copy, clippy::unit_arg)]
-fn __action14<
->(
-    __0: (i64, i64, i64),
-) -> Tree
-{
-    let __start0 = __0.0.clone();
-    let __end0 = __0.0.clone();
-    let __temp0 = __action9(
-        &__start0,
-        &__end0,
-    );
-    let __temp0 = (__start0, __temp0, __end0);
-    __action6(
-        __temp0,
-        __0,
-    )
-}
-
-#[allow(clippy::too_many_arguments, clippy::needless_lifetimes,
-    clippy::just_underscores_and_digits, clippy::clone_on_copy, clippy::unit_arg)]
-fn __action15<
->(
-    __0: (i64, Tok, i64),
-    __1: (i64, i64, i64),
-) -> Tree
-{
-    let __start0 = __0.0.clone();
-    let __end0 = __0.0.clone();
-    let __temp0 = __action9(
-        &__start0,
-        &__end0,
-    );
-    let __temp0 = (__start0, __temp0, __end0);
-    __action7(
-        __temp0,
-        __0,
-        __1,
-    )
-}
-
-#[allow(clippy::too_many_arguments, clippy::needless_lifetimes,
-    clippy::just_underscores_and_digits, clippy::clone_on_copy, clippy::unit_arg)]
-fn __action16<
->(
-    __0: (i64, Tree, i64),
     __1: (i64, Tree, i64),
-    __2: (i64, Tree, i64),
-    __3: (i64, Tok, i64),
-    __4: (i64, i64, i64),
+    __2: (i64, Tok, i64),
+    __3: (i64, i64, i64),
 ) -> Tree
 {
     let __start0 = __0.0.clone();
     let __end0 = __0.0.clone();
-    let __temp0 = __action9(
+    let __temp0 = __action7(
         &__start0,
         &__end0,
     );
@@ -858,7 +639,94 @@ fn __action16<
         __1,
         __2,
         __3,
-        __4,
+    )
+}
+
+#[allow(clippy::too_many_arguments, clippy::needless_lifetimes,
+    clippy::just_underscores_and_digits, clippy::clone_on_copy, clippy::unit_arg)]
+fn __action13<
+>(
+    __0: (i64, Tree, i64),
+) -> Tree
+{
+    let __start0 = __0.2.clone();
+    let __end0 = __0.2.clone();
+    let __temp0 = __action6(
+        &__start0,
+        &__end0,
+    );
+    let __temp0 = (__start0, __temp0, __end0);
+    __action8(
+        __0,
+        __temp0,
+    )
+}
+
+#[allow(clippy::too_many_arguments, clippy::needless_lifetimes,
+    clippy::just_underscores_and_digits, clippy::clone_on_copy, clippy::unit_arg)]
+fn __action14<
+>(
+    __0: (i64, Tree, i64),
+) -> Tree
+{
+    let __start0 = __0.2.clone();
+    let __end0 = __0.2.clone();
+    let __start1 = __0.2.clone();
+    let __end1 = __0.2.clone();
+    let __temp0 = __action6(
+        &__start0,
+        &__end0,
+    );
+    let __temp0 = (__start0, __temp0, __end0);
+    let __temp1 = __action6(
+        &__start1,
+        &__end1,
+    );
+    let __temp1 = (__start1, __temp1, __end1);
+    __action9(
+        __0,
+        __temp0,
+        __temp1,
+    )
+}
+
+#[allow(clippy::too_many_arguments, clippy::needless_lifetimes,
+    clippy::just_underscores_and_digits, clippy::clone_on_copy, clippy::unit_arg)]
+fn __action15<
+>(
+    __0: (i64, Tok, i64),
+) -> Tree
+{
+    let __start0 = __0.2.clone();
+    let __end0 = __0.2.clone();
+    let __temp0 = __action6(
+        &__start0,
+        &__end0,
+    );
+    let __temp0 = (__start0, __temp0, __end0);
+    __action10(
+        __0,
+        __temp0,
+    )
+}
+
+#[allow(clippy::too_many_arguments, clippy::needless_lifetimes,
+    clippy::just_underscores_and_digits, clippy::clone_on_copy, clippy::unit_arg)]
+fn __action16<
+>(
+    __lookbehind: &i64,
+    __lookahead: &i64,
+) -> Tree
+{
+    let __start0 = __lookbehind.clone();
+    let __end0 = __lookahead.clone();
+    let __temp0 = __action6(
+        &__start0,
+        &__end0,
+    );
+    let __temp0 = (__start0, __temp0, __end0);
+    __action11(
+        __temp0,
     )
 }
 
@@ -866,145 +734,29 @@ fn __action16<
     clippy::just_underscores_and_digits, clippy::clone_on_copy, clippy::unit_arg)]
 fn __action17<
 >(
-    __lookbehind: &i64,
-    __lookahead: &i64,
+    __0: (i64, Tree, i64),
+    __1: (i64, Tok, i64),
 ) -> Tree
 {
-    let __start0 = __lookbehind.clone();
-    let __end0 = __lookahead.clone();
-    let __temp0 = __action8(
+    let __start0 = __0.0.clone();
+    let __end0 = __0.0.clone();
+    let __start1 = __1.2.clone();
+    let __end1 = __1.2.clone();
+    let __temp0 = __action6(
         &__start0,
         &__end0,
     );
     let __temp0 = (__start0, __temp0, __end0);
-    __action10(
-        __temp0,
-    )
-}
-
-#[allow(clippy::too_many_arguments, clippy::needless_lifetimes,
-    clippy::just_underscores_and_digits, clippy::clone_on_copy, clippy::unit_arg)]
-fn __action18<
->(
-    __0: (i64, Tok, i64),
-) -> Tree
-{
-    let __start0 = __0.2.clone();
-    let __end0 = __0.2.clone();
-    let __temp0 = __action8(
-        &__start0,
-        &__end0,
+    let __temp1 = __action6(
+        &__start1,
+        &__end1,
     );
-    let __temp0 = (__start0, __temp0, __end0);
-    __action11(
-        __0,
-        __temp0,
-    )
-}
-
-#[allow(clippy::too_many_arguments, clippy::needless_lifetimes,
-    clippy::just_underscores_and_digits, clippy::clone_on_copy, clippy::unit_arg)]
-fn __action19<
->(
-    __lookbehind: &i64,
-    __lookahead: &i64,
-) -> Tree
-{
-    let __start0 = __lookbehind.clone();
-    let __end0 = __lookahead.clone();
-    let __temp0 = __action8(
-        &__start0,
-        &__end0,
-    );
-    let __temp0 = (__start0, __temp0, __end0);
+    let __temp1 = (__start1, __temp1, __end1);
     __action12(
         __temp0,
-    )
-}
-
-#[allow(clippy::too_many_arguments, clippy::needless_lifetimes,
-    clippy::just_underscores_and_digits, clippy::clone_on_copy, clippy::unit_arg)]
-fn __action20<
->(
-    __0: (i64, Tok, i64),
-) -> Tree
-{
-    let __start0 = __0.2.clone();
-    let __end0 = __0.2.clone();
-    let __temp0 = __action8(
-        &__start0,
-        &__end0,
-    );
-    let __temp0 = (__start0, __temp0, __end0);
-    __action13(
-        __0,
-        __temp0,
-    )
-}
-
-#[allow(clippy::too_many_arguments, clippy::needless_lifetimes,
-    clippy::just_underscores_and_digits, clippy::clone_on_copy, clippy::unit_arg)]
-fn __action21<
->(
-    __lookbehind: &i64,
-    __lookahead: &i64,
-) -> Tree
-{
-    let __start0 = __lookbehind.clone();
-    let __end0 = __lookahead.clone();
-    let __temp0 = __action8(
-        &__start0,
-        &__end0,
-    );
-    let __temp0 = (__start0, __temp0, __end0);
-    __action14(
-        __temp0,
-    )
-}
-
-#[allow(clippy::too_many_arguments, clippy::needless_lifetimes,
-    clippy::just_underscores_and_digits, clippy::clone_on_copy, clippy::unit_arg)]
-fn __action22<
->(
-    __0: (i64, Tok, i64),
-) -> Tree
-{
-    let __start0 = __0.2.clone();
-    let __end0 = __0.2.clone();
-    let __temp0 = __action8(
-        &__start0,
-        &__end0,
-    );
-    let __temp0 = (__start0, __temp0, __end0);
-    __action15(
-        __0,
-        __temp0,
-    )
-}
-
-#[allow(clippy::too_many_arguments, clippy::needless_lifetimes,
-    clippy::just_underscores_and_digits, clippy::clone_on_copy, clippy::unit_arg)]
-fn __action23<
->(
-    __0: (i64, Tree, i64),
-    __1: (i64, Tree, i64),
-    __2: (i64, Tree, i64),
-    __3: (i64, Tok, i64),
-) -> Tree
-{
-    let __start0 = __3.2.clone();
-    let __end0 = __3.2.clone();
-    let __temp0 = __action8(
-        &__start0,
-        &__end0,
-    );
-    let __temp0 = (__start0, __temp0, __end0);
-    __action16(
         __0,
         __1,
-        __2,
-        __3,
-        __temp0,
+        __temp1,
     )
 }
 
